@@ -75,7 +75,7 @@ def models_for(pid, tier):
                 ('MC_Stmts', 'MCdev_Stmts_stale.cfg', 'fail')],
         'C11': [('MC_Flow', 'MC_Flow.cfg', 'pass'), ('MC_Flow', 'MCdev_Flow_nogate.cfg', 'fail')],
         'C12': [('MC_Flow', 'MC_Flow_deep.cfg' if deep else 'MC_Flow.cfg', 'pass'), ('MC_Flow', 'MC_Flow_live.cfg', 'pass'),
-                ('MC_Flow', 'MCdev_Flow_noflush.cfg', 'fail'), ('MC_Reader', 'MC_Reader.cfg', 'pass')],
+                ('MC_Flow', 'MCdev_Flow_noflush.cfg', 'fail'), ('MC_Reader', 'MC_Reader.cfg', 'pass'), ('MC_Reader', 'MCdev_Reader_saturated.cfg', 'fail')],
         'C13': [('MC_Codec', 'MC_Codec.cfg', 'pass')],
         'C14': [('MC_Codec', 'MC_Codec.cfg', 'pass')],
         'C15': [('MC_Codec', 'MC_Codec.cfg', 'pass')],
